@@ -170,6 +170,20 @@ inductive Pre
   | directEval (off : Int) (file : Nat)  -- an earlier direct `eval("…")`: cmplEvaluateNodeProgram(eval=true) overwrites rt.scope.frame.file
 deriving Repr, DecidableEq
 
+/- the argument list of a call expression, as far as frames are concerned: which arguments are themselves
+   calls (or `new`) that return before the outer call is made – nested to any depth -/
+mutual
+inductive Arg
+  | lit                                          -- literal, identifier, member access, function literal: no call is made
+  | call (f : Form) (off : Int) (args : Args)    -- a call / `new` expression with its own argument list; it returns
+  | evalDirect (off : Int) (file : Nat)          -- a direct `eval("…")` used as an argument
+  deriving Repr, DecidableEq
+inductive Args
+  | nil
+  | cons (a : Arg) (rest : Args)
+  deriving Repr, DecidableEq
+end
+
 structure Level where
   via : Via
   form : Form
@@ -177,7 +191,9 @@ structure Level where
   off : Int              -- idx of the call site's callee expression
   pre : List Pre := []
   file : Nat := 0        -- the file the activation's code was parsed from (`fn.node.file`; for eval code: the eval source)
+  args : Args := .nil    -- the argument list of the call expression that makes this activation
 deriving Repr, DecidableEq
+
 
 def setTopOffset (o : Int) : Stack → Stack
   | [] => []
@@ -192,14 +208,31 @@ def runPre : List Pre → Stack → Stack
   | .doneCall f off :: ps, s => runPre ps (setTopOffset (atvOf f off) s)            -- rt.scope.frame.offset = int(atv); callee enters and leaves
   | .directEval off k :: ps, s => runPre ps (setTopFile k (setTopOffset off s))   -- offset = idx of `eval`; no scope; frame.file = node.file
 
+/- cmpl_evaluate_expression.go:185-191 / :263-266: the arguments are evaluated left to right, in the calling
+    activation.  An argument that is itself a call evaluates *its* arguments, then records *its* call site in the
+    same frame (`rt.scope.frame.offset = int(atv)`, :233/:297), runs its callee and returns – the single per-frame
+   offset keeps that value. -/
+mutual
+def evalArg : Arg → Stack → Stack
+  | .lit, s => s
+  | .call f off as, s => setTopOffset (atvOf f off) (evalArgs as s)
+  | .evalDirect off k, s => setTopFile k (setTopOffset off s)
+def evalArgs : Args → Stack → Stack
+  | .nil, s => s
+  | .cons a r, s => evalArgs r (evalArg a s)
+end
+
 /-- type_function.go:207 frame of a script function activation -/
 def nodeFrame (name : String) (file : Nat) : Frame := { callee := name, file := some file }
 /-- type_function.go:177 frame of a native function activation -/
 def nativeFrame (name : String) : Frame := { callee := name, native := true, file := none }
 
-/-- the scope chain after entering one more activation -/
+/-- the scope chain after entering one more activation.  Order as in cmplEvaluateNodeCallExpression /
+    cmplEvaluateNodeNewExpression: callee, then the argument list (`evalArgs`), then the callable check, and only
+    then – immediately before `call` / `construct` – `rt.scope.frame.offset = int(atv)` (:233, :297). -/
 def enterLevel (lv : Level) (s : Stack) : Stack :=
   let s := runPre lv.pre s
+  let s := evalArgs lv.args s
   match lv.via with
   | .direct | .construct | .bound => nodeFrame lv.name lv.file :: setTopOffset (atvOf lv.form lv.off) s
   | .viaNative n => nodeFrame lv.name lv.file :: nativeFrame n :: setTopOffset (atvOf lv.form lv.off) s
